@@ -840,7 +840,7 @@ def shapes_check(pid, tier, seed):
     try:
         vlib.copy_spec(work)
         harness = vlib.build_harness()
-        write_raw_cfg(os.path.join(work, 'sh.cfg'), ['SPECIFICATION Spec', 'CONSTANTS', '  Depth = 2', 'INVARIANTS BaselineAccepted VerdictTotal Monotone CaseDump', 'CHECK_DEADLOCK FALSE'])
+        write_raw_cfg(os.path.join(work, 'sh.cfg'), ['SPECIFICATION Spec', 'CONSTANTS', '  Depth = %d' % (2 if q else 3), 'INVARIANTS BaselineAccepted VerdictTotal Monotone CaseDump', 'CHECK_DEADLOCK FALSE'])
         rc, out, wall = vlib.run_tlc(work, 'Shapes.tla', 'sh.cfg', workers=vlib.NCPU, heap='16g', timeout=2400)
         err = vlib.tlc_failed(out)
         if err:
